@@ -15,6 +15,7 @@ import H4.Driver.MCache
 import H4.Driver.Bits
 import H4.Driver.SkpHuff
 import H4.Driver.NBit
+import H4.Driver.DD
 open H4.Driver
 
 /-- state of every stateful engine; reset at each `CASE` line -/
@@ -29,10 +30,12 @@ structure World where
   gr : GrState := {}
   attr : AttrState := {}
   mcache : H4.MCache.State := mcacheInit
+  dd : DDState := {}
 
 def stepWorld (w : World) (engine : String) (args : List String) : World × String :=
   match engine with
   | "rle" => (w, stepRle args)
+  | "dd" => let (d, out) := stepDD w.dd args; ({ w with dd := d }, out)
   | "sd" => (w, stepSd args)
   | "conv" => (w, stepConv args)
   | "atom" => let (a, out) := stepAtom w.atom args; ({ w with atom := a }, out)
